@@ -2213,6 +2213,9 @@ impl Kanata {
         self.layout.b().queue.is_empty()
             && zippy_is_idle()
             && self.layout.b().waiting.is_none()
+            // Tap-holds / chords that are still deciding next to, or after, `waiting`
+            // (concurrent-tap-hold) count their timeouts in ticks as well.
+            && self.layout.b().extra_waiting.is_empty()
             && self.layout.b().last_press_tracker.tap_hold_timeout == 0
             // An active one-shot always has work left for the next tick: either its timeout is
             // running, or (timeout == 0, e.g. rapid-event-delay 0) its release is emitted by the
